@@ -363,7 +363,7 @@ theorem replay (ds : DistSem) : ∀ (m : Mode) (p : Prog) (i : In) (r : Res), ru
           simpa [hc] using this)
     have hm : List.map (fun r => replayed r.tr) rs = (rs.map (·.tr)).map replayed := by simp
     simp only [run, vmapRun, bind_ok, pure_ok]
-    refine ⟨as, by rw [ha]; exact has, n, hn, (), by simp [checkOldLen, ho], _, hloop, ?_⟩
+    refine ⟨as, by simpa [vmapArgs, ha] using (vmapArgs_ok has).1, n, hn, (), by simp [checkOldLen, ho], _, hloop, ?_⟩
     rw [hm]
     simp only [vecRes, sumW_replayed, bwdIdx_replayed, allBwdOk_replayed, map_tr_replayed, map_ret_replayed]
     simp [replayed, Trace.score, ha]
